@@ -20,6 +20,8 @@ func runFamilies(e *env, prop, tag string, fam func(r *rng.R, id int) *famOut, b
 			fs = append(fs, fam(r, b*1000+i))
 		}
 		kb := merge(fs...).batch(tag, vals)
+		// ask the driver whether each generated program lies in the fragments of the composite theorems
+		kb.Spec = "fragment"
 		kbs = append(kbs, kb)
 	}
 	res, err := runK2(e, strings.ToLower(prop)+strings.ReplaceAll(tag, "-", ""), kbs)
@@ -65,6 +67,16 @@ func runFamilies(e *env, prop, tag string, fam func(r *rng.R, id int) *famOut, b
 		}
 	}
 	e.rep.Note("converters executed: %d, outside the modelled fragment: %d", res.Generated, res.Unsupported)
+	if res.FragmentAsked > 0 {
+		e.rep.Note("%s: of %d generated programs, %d pass PathCheck.pathsOK (every error site carries its position: C07_path_is_position applies for ALL values), %d pass PlanCheck.checkProgU (C10_composite / C05_composite_ignored_unassigned apply), %d pass PlanCheck.checkProg (C02_composite / C04_composite apply)",
+			tag, res.FragmentAsked, res.PathsOK, res.InFragmentU, res.InFragment)
+		if res.PathsOK != res.FragmentAsked {
+			// pathsOK is a statement about the MODEL's generator (the emitted wrap paths are tied to the plan by the plan-level
+			// comparison): a plan outside it means Gv.Gen no longer produces what the C07 composite assumes
+			e.rep.Violation("model-plan-outside-pathsOK", map[string]any{"programs": res.FragmentAsked, "pathsOK": res.PathsOK,
+				"broken": "Gv.Gen produced a plan that PathCheck.pathsOK rejects: theorem C07_path_is_position does not apply to it"}, true)
+		}
+	}
 	if os.Getenv("GVH_DEBUG") != "" {
 		for _, ge := range res.GenErrors {
 			fmt.Fprintln(os.Stderr, "GENERR", strings.ReplaceAll(ge, "\n", " | "))
